@@ -28,6 +28,8 @@ type OblResult struct {
 	Output  string
 	Query   string
 	AllStat map[string]string
+	Second  int
+	Clash   string
 }
 
 type FuncReport struct {
@@ -541,7 +543,11 @@ func discharge(o *Obligation, outDir string, timeoutS int) *OblResult {
 	r.Query = q
 	if o.ExpectSat {
 		// vacuity covers: two solvers are enough (a cover that cannot be decided costs its full time limit)
-		sr := solveOn(outDir, o.Name, []queryVariant{{"", q, true}}, timeoutS, []string{"z3-5.1.0", "cvc5-1.0.3"})
+		coverSolvers := []string{"z3-5.1.0", "cvc5-1.0.3"}
+		if thoroughMode {
+			coverSolvers = nil // all three
+		}
+		sr := solveOn(outDir, o.Name, []queryVariant{{"", q, true}}, timeoutS, coverSolvers)
 		r.Solver, r.Ms, r.Output, r.AllStat = sr.Solver, sr.Ms, sr.Output, sr.All
 		switch sr.Status {
 		case "sat":
@@ -583,6 +589,12 @@ func discharge(o *Obligation, outDir string, timeoutS int) *OblResult {
 	}
 	sr := solve(outDir, o.Name, variants, timeoutS)
 	r.Solver, r.Ms, r.Output, r.AllStat = sr.Solver, sr.Ms, sr.Output, sr.All
+	r.Second, r.Clash = sr.Second, sr.Clash
+	if sr.Clash != "" && sr.Status == "unsat" {
+		// two solvers contradict each other on the full query: the obligation is not counted as discharged
+		sr.Status = "unknown"
+		r.Output = "solvers disagree: " + sr.Solver + ":unsat vs " + sr.Clash + "\n" + r.Output
+	}
 	switch {
 	case o.ExpectSat && sr.Status == "sat":
 		r.Status = "discharged"
